@@ -47,6 +47,13 @@ def run():
     # booleans are integers; arithmetic on comparisons
     assert one("SELECT (1 = 1) + (2 > 1), -1 * (3 = 3) * (NOT 0), TRUE, FALSE") == [2, -1, 1, 0]
     assert one("SELECT 7 DIV 2, -7 DIV 2, 7 % 3, 7 / 2, FLOOR(2.7), FLOOR(-2.5), CEIL(2.1)") == [3, -3, 1, 3.5, 2, -3, 3]
+    # row constructors: = is component-wise, < <= > >= are lexicographic; NULL components follow the expansion a>x OR (a=x AND b>y)
+    assert one("SELECT (1, 2) = (1, 2), (1, 2) != (1, 3), (1, NULL) = (1, 2), (2, NULL) = (1, 2)") == [1, 1, None, 0]
+    assert one("SELECT (1, 5) > (1, 4), (1, 5) > (1, 5), (1, 5) >= (1, 5), (2, 0) > (1, 9), (1, 9) > (2, 0), (1, 2) < (1, 3), (1, 2) <= (0, 9)") == \
+        [1, 0, 1, 1, 0, 1, 0]
+    assert one("SELECT (2, NULL) > (1, 1), (1, NULL) > (1, 1), (0, NULL) > (1, 1), (NULL, 5) > (1, 1), (1, 2, 3) >= (1, 2, 2), (1, 2, 3) < (1, 2, 3)") == \
+        [1, None, 0, None, 1, 0]
+    expect_err(s, 1241, "SELECT (1, 2) > (1, 2, 3)")
     # operator precedence: NOT binds tighter than AND, comparison tighter than NOT
     assert one("SELECT NOT 0 AND 0, NOT (0 AND 0), NOT 1 = 2") == [0, 1, 1]
     # string comparison: default collation is case- and accent-insensitive, _cs columns are not
